@@ -32,6 +32,7 @@ VERIF_FAIL = [
     (r"possible truncation|integer cast", "cast"),
     (r"constructor .* not satisfied|field access .* variant", "variant"),
     (r"failed to satisfy .*trait.* (ensures|requires)|trait method.* (ensures|postcondition)", "trait-ensures"),
+    (r"may fail to meet its declared type invariant", "type-invariant"),
     (r"cannot prove .*", "other"),
 ]
 TOOL_LIMIT = [r"Resource limit \(rlimit\) exceeded", r"rlimit", r"not supported", r"unsupported", r"The verifier does not yet support", r"timed? ?out"]
@@ -189,6 +190,11 @@ def run_unit(unit, workdir, seed=None, rlimit=None, do_canary=True, keep=None):
                     f = nxt[0] if nxt and kind != "assume_specification" else None
                 trust.append(dict(kind=kind, line=ln, frag=frag_of(ln), where=(extract.fn_label(f) if f else "-"), text=code.strip()[:160]))
     r = run_verus(path, workdir, seed=seed, rlimit=rlimit)
+    if rlimit is None and any(classify_diag(d)[0] == "tool" for d in r["diags"] if d.get("level") == "error"):
+        # a query ran out of resources: a failing proof often does.  Try once more with ten times the limit so that a
+        # genuinely unprovable obligation is reported as such; if it still runs out the result stays "undecided" (exit 2).
+        log("unit %s: resource limit hit, re-running with --rlimit 100" % unit)
+        r = run_verus(path, workdir, seed=seed, rlimit=100)
     vr = r["res"].get("verification-results", {})
     fails, tools, unknown = [], [], []
     for d in r["diags"]:
